@@ -416,10 +416,10 @@ def _body_open(toks, i):
     raise AnchorError("no block found")
 
 
-N1_MATCH_FORM = [False]
 
 
-def n1_for(toks, counts):
+def n1_for(toks, counts, match_form=False):
+    # `match_form` is a parameter, not module state: units are assembled in parallel threads
     seq = [0]
 
     def go(toks):
@@ -442,7 +442,7 @@ def n1_for(toks, counts):
                 body = go(toks[bo:bc + 1])
                 seq[0] += 1
                 it = "__it%d" % seq[0]
-                if N1_MATCH_FORM[0]:
+                if match_form:
                     # the Rust Reference desugaring proper: `match E { mut iter => loop { .. } }` keeps temporaries
                     # of E alive for the whole loop (needed when E borrows from a temporary)
                     new = frag("match", t.trivia) + [x.clone() for x in expr] + \
@@ -794,9 +794,7 @@ def apply_all(toks, repo, opts, notes):
     if opts.get("n13"):
         toks = n13_match_bytestr(toks, counts)
     toks = n8_bytestr(toks, counts)
-    N1_MATCH_FORM[0] = (opts.get("n1") == "match")
-    toks = n1_for(toks, counts)
-    N1_MATCH_FORM[0] = False
+    toks = n1_for(toks, counts, match_form=(opts.get("n1") == "match"))
     toks = n4_while_let(toks, counts)
     toks = n3_break_value(toks, counts)
     if opts.get("n11"):
